@@ -130,6 +130,12 @@ def run(ctx):
         import random
         s = calc.interstitial(name, chem, shell, random.Random(oseed))
         d = calc.interstitial_data(s, rng, 0, 2)
+        if s.Nsite > 1:
+            # inequivalent sites get DIFFERENT energies and prefactors (symmetrised rates between them are then not
+            # the plain forward rates)
+            d["eneL"] = rng.sample(range(0, max(3, s.Nsite)), s.Nsite)
+            d["preL"] = rng.sample(range(0, max(2, s.Nsite)), s.Nsite)
+            d["eneTL"] = [max(e, max(d["eneL"]) + 1) for e in d["eneTL"]]
         D0 = s.calc.diffusivity(*calc.interstitial_args(d))
         disp_calcs = {}
         for n in pick(25 if quick else 120):
